@@ -29,7 +29,8 @@ ASSUMPTIONS = ["port names and hardware addresses are unique among the ports "
                "never announced"]
 REQUIRED = ["port_histories", "views_compared", "renames", "deletes",
             "readds", "stale_name_lookups", "stats_histories",
-            "multipart_events", "interleaved_histories", "sequential_pairs"]
+            "multipart_events", "interleaved_histories", "sequential_pairs",
+            "features_refreshes"]
 TIMEOUT = {"quick": 900, "thorough": 7200}
 
 REASON_ADD, REASON_DELETE, REASON_MODIFY = 0, 1, 2
@@ -90,6 +91,9 @@ def check_view (fire, rep, view, model, what, former_names, former_hw):
   return True
 
 
+REASON_FEATURES = 100
+
+
 def run_ports (case, rep):
   core, of_01 = ctl.boot_controller()
   def fire (key, what):
@@ -110,6 +114,27 @@ def run_ports (case, rep):
     (e.ofp.reason, e.ofp.desc.port_no)))
   for step in case["steps"]:
     reason, n, nm, hw, cfg = step
+    if reason == REASON_FEATURES:
+      # a further features reply on the established connection: the switch's
+      # port list as of now replaces everything known before
+      plist = [ctl.phy_port(a, name=b, hw=c) for a, b, c in n]
+      fr = ofwire.enc_message("features_reply", dict(
+        xid=77, datapath_id=case["dpid"], n_buffers=0, n_tables=1,
+        capabilities=0, actions=0xfff, ports=plist))
+      if not peer.feed(fr):
+        fire("connection closed by a features reply", ""); return True
+      for p in model.values():
+        former_names.add(p["name"]); former_hw.add(p["hw_addr"])
+      original = {p["port_no"]: dict(p) for p in plist}
+      model = {p["port_no"]: dict(p) for p in plist}
+      rep.count("features_refreshes"); nt = True
+      if not check_view(fire, rep, con.ports, model, "current view",
+                        former_names, former_hw):
+        return True
+      if not check_view(fire, rep, con.original_ports, original,
+                        "original view", set(), set()):
+        return True
+      continue
     desc = ctl.phy_port(n, name=nm, hw=hw, config=cfg,
                         state=1 if cfg & 1 else 0)
     before = len(events)
@@ -130,7 +155,8 @@ def run_ports (case, rep):
           former_names.add(model[n]["name"]); rep.count("renames"); nt = True
         if model[n]["hw_addr"] != hw:
           former_hw.add(model[n]["hw_addr"]); nt = True
-      elif n in original or any(s[1] == n for s in case["steps"][:case["steps"].index(step)]):
+      elif n in original or any(s[1] == n for s in case["steps"][:case["steps"].index(step)]
+                                if s[0] != REASON_FEATURES):
         rep.count("readds"); nt = True
       model[n] = desc
     if not check_view(fire, rep, con.ports, model, "current view",
@@ -297,6 +323,17 @@ def gen_ports (rng, n, maxlen):
     for _ in range(rng.randrange(1, maxlen + 1)):
       no = rng.choice(nums)
       r = rng.random()
+      if rng.random() < 0.06:
+        # the switch is asked for its features again: some of the ports it
+        # reports were deleted / renamed before, some are as they were
+        plist = []
+        for q in rng.sample(nums, rng.randrange(0, 5)):
+          if q in cur and rng.random() < 0.5: qn, qh = cur[q]
+          else: qn, qh = fresh(q)
+          plist.append([q, qn, qh])
+        cur = {q: (qn, qh) for q, qn, qh in plist}
+        steps.append([REASON_FEATURES, plist, None, None, 0])
+        continue
       if no in cur and r < 0.3:
         nm, hw = cur.pop(no)
         steps.append([REASON_DELETE, no, nm, hw, 0])
